@@ -7,7 +7,7 @@ _HZ = None          # harness instance, inherited by forked workers
 
 def plain(x, depth=0):
     """picklable / JSON-able copy (z3 terms become strings)"""
-    if depth > 14:
+    if depth > 80:
         return '...'
     if isinstance(x, dict):
         return {(k if isinstance(k, (str, int)) else str(k)): plain(v, depth + 1) for k, v in x.items()}
